@@ -36,7 +36,7 @@ func runCases(c *check.Ctx, prop string, each func(emit func(cs *core.Case))) {
 	})
 }
 
-func pts(ps ...core.Pt) []core.Pt { return ps }
+func pts(ps ...core.Pt) []core.Pt  { return ps }
 func p(t int64, v float64) core.Pt { return core.Pt{T: t, V: core.F(v)} }
 
 // ---------------------------------------------------------------------------------
